@@ -41,6 +41,13 @@ impl<VM: VMBinding, P: ConcurrentPlan<VM = VM> + PlanTraceObject<VM>, const KIND
     }
 
     fn slow(&mut self, _src: Option<ObjectReference>, _slot: VM::VMSlot, old: ObjectReference) {
+        #[cfg(mmtk_verif)]
+        crate::verif::emit(|| {
+            format!(
+                "\"ev\":\"SATBPush\",\"old\":{}",
+                crate::verif::proj_addr(old.to_raw_address())
+            )
+        });
         self.satb.push(old);
         if self.satb.is_full() {
             self.flush_satb();
@@ -68,6 +75,15 @@ impl<VM: VMBinding, P: ConcurrentPlan<VM = VM> + PlanTraceObject<VM>, const KIND
 
     fn flush_satb(&mut self) {
         if !self.satb.is_empty() {
+            #[cfg(mmtk_verif)]
+            crate::verif::emit(|| {
+                format!(
+                    "\"ev\":\"SATBFlush\",\"n\":{},\"packets\":{},\"marking\":{}",
+                    self.satb.len(),
+                    self.should_create_satb_packets(),
+                    self.plan.concurrent_work_in_progress()
+                )
+            });
             if self.should_create_satb_packets() {
                 let satb = self.satb.take();
                 let bucket = if self.plan.concurrent_work_in_progress() {
@@ -122,6 +138,13 @@ impl<VM: VMBinding, P: ConcurrentPlan<VM = VM> + PlanTraceObject<VM>, const KIND
         _slot: <Self::VM as VMBinding>::VMSlot,
         _target: Option<ObjectReference>,
     ) {
+        #[cfg(mmtk_verif)]
+        crate::verif::emit(|| {
+            format!(
+                "\"ev\":\"SATBSlow\",\"src\":{}",
+                crate::verif::proj_addr(src.to_raw_address())
+            )
+        });
         self.object_probable_write_slow(src);
         self.log_object(src);
     }
